@@ -20,7 +20,10 @@ taskTime / deferred queue / trigger):
   dfs      : ALL operation sequences up to length 5 (quick) / 7 (thorough) over
              {install at T, install after D, suspend, resume, re-install,
              advance D by run_once, advance D by run} on 4 tasks, up to renaming
-             of tasks (first-use order); every time collides (T = base + D)
+             of tasks (first-use order); every time collides (T = base + D).
+             Thorough: complete up to length 6; of length 7 the histories that end
+             in an advance (the others have the firing log of their length-6
+             prefix, which is enumerated)
   random   : histories of length 200 over 6 tasks of mixed classes (raising
              bodies, deferring bodies, recurring with refused parameters, ...)
   grid     : recurring interval x offset x phase grid incl. 0.1, 0.3, 1/3 s,
@@ -43,8 +46,9 @@ from . import core
 LEAN_TARGETS = ["BacVerif.Props.C14", "drv_c14"]
 LEANCHECKER = ["BacVerif.Props.C14"]
 LEVEL = "proof"
-RULE = ("dfs: all histories up to length 5 (quick) / 7 (thorough) over 5 task operations x 4 tasks "
-        "(canonical task naming) + 2 ways to advance time, colliding times; random: length-200 "
+RULE = ("dfs: all histories up to length 5 (quick) / 7 (thorough; length 7 = those ending in an advance, "
+        "the rest share the firing log of their enumerated length-6 prefix) over 5 task operations x "
+        "4 tasks (canonical task naming) + 2 ways to advance time, colliding times; random: length-200 "
         "histories over 12 operation kinds; grid: recurring interval/offset/phase/clock-magnitude "
         "grid incl. 0.1, 0.3, 1/3 s; deferred: all raising subsets of batches <= 6 in 4 shapes x 2 "
         "loops. distinct = distinct (stream, operation, event-shape, flag/outcome class) signatures; "
@@ -618,9 +622,11 @@ def dfs_prefixes(depth):
     return res
 
 
-def dfs_subtree(prefix, k, L):
+def dfs_subtree(prefix, k, L, last_adv=False):
     """request list enumerating every extension of `prefix` up to total length L, depth first,
-    one line per history: restore the parent's snapshot, do the operation, save"""
+    one line per history: restore the parent's snapshot, do the operation, save.
+    last_adv: at length L only the histories ending in an advance are listed — the others have
+    the firing log of their prefix of length L-1, which is listed."""
     reqs = []
     parents = []          # index of the parent request, for path reconstruction
     if not prefix:
@@ -635,6 +641,8 @@ def dfs_subtree(prefix, k, L):
 
     def rec(depth, k, parent):
         for r, k2 in dfs_alphabet(k):
+            if last_adv and depth + 1 == L and r["op"] not in ("once", "run"):
+                continue
             q = dict(r)
             q["from"] = depth
             if depth + 1 < L:
@@ -689,7 +697,8 @@ class AsyncDriver:
 
 
 def shard_dfs(ctx, spec):
-    L, prefixes = spec
+    L, prefixes = spec[0], spec[1]
+    last_adv = len(spec) > 2 and spec[2]
     impl = Impl.get()
     tasks = [PLAIN] * 4
     head = [{"op": "reset", "tpu": 1, "tasks": tasks}]
@@ -697,7 +706,7 @@ def shard_dfs(ctx, spec):
         if len(ctx.failures) > MAX_FAILS:
             ctx.notes.append("dfs shard stopped early after %d property failures" % len(ctx.failures))
             break
-        reqs, parents = dfs_subtree(prefix, k, L)
+        reqs, parents = dfs_subtree(prefix, k, L, last_adv)
         drv = AsyncDriver(head + reqs) if ctx.model_ok else None
         scn = {"tpu": 1, "tasks": tasks, "ops": []}
         orc = Oracle(scn)
@@ -727,7 +736,7 @@ def shard_dfs(ctx, spec):
     ctx.sample({"stream": "dfs", "L": L, "first_prefix": prefixes[0][0] if prefixes else None})
 
 
-def run_dfs(ctx, L):
+def run_dfs(ctx, L, last_adv=False):
     depth = 2 if L <= 5 else 3
     pre = dfs_prefixes(depth)
     # shorter histories are the inner nodes of the subtrees, except those shorter than the
@@ -737,10 +746,11 @@ def run_dfs(ctx, L):
     for i in range(nshard):
         chunk = pre[i::nshard]
         if chunk:
-            specs.append((L, chunk))
+            specs.append((L, chunk, last_adv))
     core.run_shards(ctx, "harness.c14", "shard_dfs", specs)
     core.run_shards(ctx, "harness.c14", "shard_dfs", [(depth, [([], 0)])], procs=1)
     ctx.extra["dfs_length"] = L
+    ctx.extra["dfs_last_operation_of_longest_histories"] = "advance only" if last_adv else "any"
 
 
 # --------------------------------------------------------------------------
@@ -886,7 +896,6 @@ def grid_scenarios(ctx, rng):
                         ops += [{"op": "rec", "t": 0, "iv": None, "off": None}, {"op": "jump", "fuel": FUEL}]
                     else:
                         iv2 = rng.choice(intervals)
-                        r2 = None
                         ops += [{"op": "tick", "d": 17 * TPU}]
                         ops += [{"op": "rec", "t": 0, "iv": iv2, "off": None}, {"op": "jump", "fuel": FUEL},
                                 {"op": "jump", "fuel": FUEL}]
@@ -894,14 +903,6 @@ def grid_scenarios(ctx, rng):
                                  "tasks": [{"rec": True, "raises": (len(scns) % 5 == 0), "defers": []}],
                                  "ops": ops})
     return scns
-
-
-def grid_safe(scn):
-    """drop scenarios in which a harness-chosen instant (tick / once) comes within 1 us of the
-    point where the floor of the slot computation flips — evaluated on the exact model"""
-    # done by construction for the first install; the tails use offsets of 5..17 us or half
-    # intervals, which keep the distance unless the interval itself is tiny
-    return scn
 
 
 # --------------------------------------------------------------------------
@@ -959,8 +960,8 @@ def run(ctx):
         core.run_shards(ctx, "harness.c14", "shard_random", [("q%d" % i, 8, 200) for i in range(16)])
         run_dfs(ctx, 5)
     else:
-        core.run_shards(ctx, "harness.c14", "shard_random", [("t%d" % i, 60, 200) for i in range(64)])
-        run_dfs(ctx, 7)
+        core.run_shards(ctx, "harness.c14", "shard_random", [("t%d" % i, 150, 200) for i in range(64)])
+        run_dfs(ctx, 7, last_adv=True)
 
 
 def search(ctx):
